@@ -33,6 +33,7 @@ def Fires (m : Mon) (p o : Obs) (e : Ev) : Clause → Prop
       q.peerCancelled = false ∧ PTok.p2 r ∉ o.parked ∧ q.p2done = false
   | .c04NotCancelled id r => e = .k1 id ∧ ∃ q, m.reqs[r]? = some q ∧ q.peerCancelled = true ∧ q.id = some id ∧
       q.p2done = false ∧ (∀ x ∈ p.x ++ o.x, x.1 ≠ r) ∧ (PTok.h r ∈ p.parked ∨ PTok.a2 r ∈ p.parked ∨ r ∈ p.q)
+  | .c04CancelUnasked id => ∃ rest, m.unasked = id :: rest
   | .c04CtxStuck n => e = .ectx n ∧ p.callParked n = false ∧ PTok.r n ∉ o.parked ∧ finCall o.fins n = none
   | .c05TcTwice => 1 < o.tc
   | .c05OdTwice => 1 < o.od
@@ -111,6 +112,12 @@ theorem chkRegAfterRx_fires (h : chkRegAfterRx m o = some c) : Fires m p o e c :
     rename_i hc
     simp only [Bool.and_eq_true, Bool.not_eq_true', List.isEmpty_eq_false_iff] at hc
     exact ⟨hc.1, rfl, hc.2⟩
+  · cases h
+
+theorem chkCancelAsked_fires (h : chkCancelAsked m = some c) : Fires m p o e c := by
+  unfold chkCancelAsked at h
+  split at h
+  · cases h; rename_i id rest hu; exact ⟨rest, hu⟩
   · cases h
 
 theorem chkAnswer_fires (h : chkAnswer m = some c) : Fires m p o e c := by
@@ -273,6 +280,8 @@ theorem chkAll_fires (h : chkAll m p o e = some c) : Fires m p o e c := by
   rcases orElse_some h with h | h
   · exact chkOrder_fires h
   rcases orElse_some h with h | h
+  · exact chkCancelAsked_fires h
+  rcases orElse_some h with h | h
   · exact chkCancelX_fires h
   rcases orElse_some h with h | h
   · exact chkEv_fires h
@@ -293,9 +302,17 @@ holds of a monitor state that is the booked history of the extended trace. -/
 theorem fires_of_step {tr : Trace} {l : Label} {o : Obs} {c : Clause}
     (h : (monStepT (monAfter {} tr) l o).2 = some c) :
     ∃ m, Hist (tr ++ [(l, o)]) tr.length m ∧ Fires m (lastObs tr) o (evOf l) c := by
-  obtain ⟨hh, he⟩ := hist_booked tr l o
+  obtain ⟨hh, _, he⟩ := hist_booked tr l o
   rw [he] at h
   exact ⟨_, hh, chkAll_fires h⟩
+
+/-- … together with the history of the cancel bookkeeping. -/
+theorem fires_of_step_cancel {tr : Trace} {l : Label} {o : Obs} {c : Clause}
+    (h : (monStepT (monAfter {} tr) l o).2 = some c) :
+    ∃ m, HistC (tr ++ [(l, o)]) m ∧ Fires m (lastObs tr) o (evOf l) c := by
+  obtain ⟨_, hc, he⟩ := hist_booked tr l o
+  rw [he] at h
+  exact ⟨_, hc, chkAll_fires h⟩
 
 theorem len_lt_snoc (tr : Trace) (x : Label × Obs) : tr.length < (tr ++ [x]).length := by simp
 
@@ -526,7 +543,7 @@ def P_c02Twice (tr : Trace) : Prop :=
 
 /-- No response is attempted (write gate W1) for a notification or a cancel notification. -/
 def P_c02NotifAnswered (tr : Trace) : Prop :=
-  ∀ r t e, ReadAt tr r t e → (e = .readNotif ∨ e = .readCancel) → ∀ t', t < t' → evAt tr t' ≠ some (.w1 r)
+  ∀ r t e, ReadAt tr r t e → (e = .readNotif ∨ ∃ id, e = .readCancel id) → ∀ t', t < t' → evAt tr t' ≠ some (.w1 r)
 
 /-- (End of case.)  Every call that was read got a response attempt. -/
 def P_c02Answered (tr : Trace) : Prop :=
@@ -550,7 +567,7 @@ theorem sound_c02NotifAnswered (tr : Trace) (l : Label) (o : Obs) (r : Nat)
   obtain ⟨t', ha, hw⟩ := (hm.req r q hq).w1c.mp h2
   obtain ⟨t, ht⟩ := exists_readAt _ he
   refine hP r t e ht ?_ t' ((ht.arrived_iff t').mp ha) hw
-  cases e <;> simp_all [Ev.isRead, Ev.reqId]
+  cases e <;> simp_all [Ev.isRead, Ev.reqId, Ev.isCancelRead]
 
 theorem monEndT_none {m : Mon} {c : Clause} (h : monEndT m none = some c) :
     ∃ q r, m.reqs[r]? = some q ∧ q.isNotif = false ∧ q.isCancel = false ∧ q.w1count = 0 ∧
@@ -685,6 +702,23 @@ theorem sound_c04NotCancelled (tr : Trace) (l : Label) (o : Obs) (id r : Nat)
     (by rw [before_snoc_len]; exact h6)
   rw [before_snoc_len, obsAt_snoc_len] at hx
   exact h5 x hx hxr
+
+/-- `Connection.Cancel(id)` runs only for an id that a received notifications/cancelled named, once per
+notification: at every `K1 id`, the number of `K1 id` so far does not exceed the number of
+`read cancel id` so far.  (Otherwise a request the peer did not name may be cancelled, and the one
+it named is not: "cancels … the peer's handler for exactly that request".) -/
+def P_c04CancelOnlyAsked (tr : Trace) : Prop :=
+  ∀ k id, k < tr.length → evAt tr k = some (.k1 id) →
+    cnt (tr.take (k + 1)) (· == .k1 id) ≤ cnt (tr.take (k + 1)) (· == .readCancel id)
+
+theorem sound_c04CancelUnasked (tr : Trace) (l : Label) (o : Obs) (id : Nat)
+    (h : (monStepT (monAfter {} tr) l o).2 = some (.c04CancelUnasked id)) :
+    ¬ P_c04CancelOnlyAsked (tr ++ [(l, o)]) := by
+  obtain ⟨m, hc, rest, hu⟩ := fires_of_step_cancel h
+  intro hP
+  obtain ⟨k, hk, he, hlt⟩ := hc.un id (by rw [hu]; simp)
+  have := hP k id hk he
+  omega
 
 /-! ## C03 — a notification's handler finishes before the handler of any later message starts;
 handlers start in arrival order -/
@@ -937,8 +971,22 @@ example : ¬ P_c04ReadCause ([(.read (.call 7), ({} : Obs))] ++ [(.d1, {x := [(0
   sound_c04ReadCause _ _ _ 0 (by decide)
 example : ¬ P_c04Unrelated ([(.read (.call 7), ({} : Obs))] ++ [(.d1, {x := [(0, .other)]})]) :=
   sound_c04Unrelated _ _ _ 0 (by decide)
-example : ¬ P_c04NotCancelled ([(.read (.call 7), ({} : Obs)), (.a1 0, {parked := [.a2 0]})] ++ [(.k1 7, {parked := [.a2 0]})]) :=
+example : ¬ P_c04NotCancelled ([(.read (.call 7), ({} : Obs)), (.a1 0, {parked := [.a2 0]}),
+    (.read (.cancel 7), {parked := [.a2 0]}), (.a1 1, {parked := [.a2 0]})] ++ [(.k1 7, {parked := [.a2 0]})]) :=
   sound_c04NotCancelled _ _ _ 7 0 (by decide)
+/-- The F33 shape: the peer named request 8, the canceller invoked Cancel(7). -/
+example : ¬ P_c04CancelOnlyAsked ([(.read (.call 7), ({} : Obs)), (.a1 0, ({} : Obs)), (.read (.cancel 8), ({} : Obs)),
+    (.a1 1, ({} : Obs))] ++ [(.k1 7, ({} : Obs))]) :=
+  sound_c04CancelUnasked _ _ _ 7 (by decide)
+example : P_c04CancelOnlyAsked [(.read (.call 7), ({} : Obs)), (.a1 0, ({} : Obs)), (.read (.cancel 7), ({} : Obs)),
+    (.a1 1, ({} : Obs)), (.k1 7, ({} : Obs))] := by
+  intro k id hk he
+  have hk : k < 5 := hk
+  have : k = 4 ∧ id = 7 := by
+    rcases (by omega : k = 0 ∨ k = 1 ∨ k = 2 ∨ k = 3 ∨ k = 4) with rfl | rfl | rfl | rfl | rfl <;> simp [evAt, evOf] at he
+    exact ⟨rfl, he.symm⟩
+  obtain ⟨rfl, rfl⟩ := this
+  decide
 
 end SoundExamples
 
